@@ -136,7 +136,7 @@ class Tr:
                     return k("(FloatOps.ofNat %s)" % t, "dbl")
                 return self.ex(ks[-1], conv)
             raise Refuse("cast kind %s" % ck)
-        if kd == "CXXConstructExpr":
+        if kd in ("CXXConstructExpr", "CXXTemporaryObjectExpr"):
             if ctype(n) != "val":
                 raise Refuse("construction of %s" % qtype(n))
             if not ks:
